@@ -7,6 +7,7 @@ import RbV.Lemmas.SmallInts
 import RbV.Lemmas.Fenwick
 import RbV.Thm.GenSrcFenwick
 import RbV.Thm.GenSrcBitEnc
+import RbV.Thm.GenSrcBitEncOps
 /-!
 # C18 — bit-packed containers behave exactly like plain vectors
 
@@ -269,5 +270,100 @@ example : Gen.SrcBitEnc.getByAddr [0, 0xFFFFFD7F] 7 1 7 = Rs.Res.ok 2 := by deci
 example : Gen.SrcBitEnc.mask 32 = Rs.Res.panic := by decide
 
 end bitenc_source
+
+/-! ## BitEnc: the constructor and the public operations translated from the source text (session 4, genbits)
+
+`BitEnc::{new, push, push_values, set, get, clear, nr_blocks, nr_symbols, len}` are translated as well (same generated
+file).  A `BitEnc` value is the tuple of its fields; `new` — translated — fixes `mask = mask(width)` and
+`usable_bits_per_block = 32 - 32 % width`, so nothing about the fields is "read off" by the model any more.  `Shape`
+is the block-count invariant `storage.len() = ⌈len / ⌊32/w⌋⌉` that `bitenc_refines` proves for every history; it is what
+keeps `self.storage[block]` in bounds.  Proofs: `RbV/Thm/GenSrcBitEncOps.lean`. -/
+section bitenc_ops_source
+open RbV.Spec.BitEnc RbV.Thm.GenSrcBitEncOps
+open RbV.Model.BitEnc (St usable)
+
+/-- `BitEnc::new(w)`, as written (assertion, `mask(width)`, `32 - 32 % width`), builds the empty model state with the
+field values all other theorems assume -/
+theorem bitenc_new_source_eq_model (w : Nat) (hw : 1 ≤ w ∧ w ≤ 8) :
+    Gen.SrcBitEnc.new w
+      = Rs.Res.ok (Model.BitEnc.new.storage, w, Model.BitEnc.mask w, Model.BitEnc.new.len, usable w) :=
+  new_eq_model w hw
+
+/-- widths above 8 are refused (`assert!`) -/
+theorem bitenc_new_source_wide_panics (w : Nat) (hw : 8 < w) : Gen.SrcBitEnc.new w = Rs.Res.panic :=
+  new_wide_panics w hw
+
+/-- **`BitEnc::push`, as written, is the model's `push`** -/
+theorem bitenc_push_source_eq_model (w : Nat) (hw : 1 ≤ w ∧ w ≤ 8) (s : St) (hs : Shape w s)
+    (hlen : s.len * w < 2 ^ 64) (hlen1 : s.len + 1 < 2 ^ 64) (v : Nat) :
+    Gen.SrcBitEnc.push s.storage w (Model.BitEnc.mask w) s.len (usable w) v
+      = Rs.Res.ok ((Model.BitEnc.push w s v).storage, (Model.BitEnc.push w s v).len) :=
+  push_eq_model w hw s hs hlen hlen1 v
+
+/-- **`BitEnc::push_values`, as written** (fill-up loop over `(bit..usable).step_by(width).take(n)`, value block loop,
+`resize`, partial block) **is the model's `pushValues`** -/
+theorem bitenc_push_values_source_eq_model (w : Nat) (hw : 1 ≤ w ∧ w ≤ 8) (s : St) (hs : Shape w s) (n v : Nat)
+    (hlen : (s.len + n) * w < 2 ^ 64) (hlen1 : s.len + n < 2 ^ 64) :
+    Gen.SrcBitEnc.pushValues s.storage w (Model.BitEnc.mask w) s.len (usable w) n v
+      = Rs.Res.ok ((Model.BitEnc.pushValues w s n v).storage, (Model.BitEnc.pushValues w s n v).len) :=
+  pushValues_eq_model w hw s hs n v hlen hlen1
+
+/-- **`BitEnc::set`, as written, is the model's `set`** when the addressed block exists (e.g. `i < len`) -/
+theorem bitenc_set_source_eq_model (w : Nat) (hw : 1 ≤ w ∧ w ≤ 8) (s : St) (i v : Nat) (hmul : i * w < 2 ^ 64)
+    (hb : (Model.BitEnc.addr w i).1 < s.storage.length) :
+    Gen.SrcBitEnc.set s.storage w (Model.BitEnc.mask w) s.len (usable w) i v
+      = Rs.Res.ok (Model.BitEnc.set w s i v).storage :=
+  set_eq_model w hw s i v hmul hb
+
+/-- **`BitEnc::get`, as written, is the model's `get`** (every index: beyond the end it returns `None`, no panic) -/
+theorem bitenc_get_source_eq_model (w : Nat) (hw : 1 ≤ w ∧ w ≤ 8) (s : St) (hs : Shape w s)
+    (hlen : s.len * w < 2 ^ 64) (i : Nat) :
+    Gen.SrcBitEnc.get s.storage w (Model.BitEnc.mask w) s.len (usable w) i = Rs.Res.ok (Model.BitEnc.get w s i) :=
+  get_eq_model w hw s hs hlen i
+
+/-- `BitEnc::clear`, `nr_blocks`, `nr_symbols` / `len`, as written -/
+theorem bitenc_clear_len_source_eq_model (w m u : Nat) (s : St) :
+    Gen.SrcBitEnc.clear s.storage w m s.len u
+      = Rs.Res.ok ((Model.BitEnc.clear s).storage, (Model.BitEnc.clear s).len) ∧
+    Gen.SrcBitEnc.nrBlocks s.storage w m s.len u = Rs.Res.ok (Model.BitEnc.nrBlocks s) ∧
+    Gen.SrcBitEnc.nrSymbols s.storage w m s.len u = Rs.Res.ok s.len ∧
+    Gen.SrcBitEnc.len s.storage w m s.len u = Rs.Res.ok s.len :=
+  ⟨clear_eq_model w m u s, nrBlocks_eq_model w m u s, (nrSymbols_eq_model w m u s).1, (nrSymbols_eq_model w m u s).2⟩
+
+/-- **generated code refines the plain vector**: build the object with the translated `new`, run any history with the
+translated operations (`srcStep`; `OpsOk`: every `set` hits an existing element, the length in bits fits `usize`):
+nothing panics, the final `len` is the length of the spec vector, the translated `get` returns the spec vector's element
+at every index (`None` beyond the end), the translated `nr_blocks` is `⌈len / ⌊32/w⌋⌉`.
+(`source_run_eq_model` ∘ `bitenc_refines`.) -/
+theorem bitenc_source_refines (w : Nat) (hw : 1 ≤ w ∧ w ≤ 8) (ops : List Op) (hok : OpsOk w [] ops) :
+    ∃ st len m u,
+      Gen.SrcBitEnc.new w = Rs.Res.ok ([], w, m, 0, u) ∧
+      ops.foldlM (srcStep w m u) ([], 0) = Rs.Res.ok (st, len) ∧
+      len = (ops.foldl (specStep w) []).length ∧
+      (∀ i, Gen.SrcBitEnc.get st w m len u i = Rs.Res.ok ((ops.foldl (specStep w) [])[i]?)) ∧
+      Gen.SrcBitEnc.nrBlocks st w m len u = Rs.Res.ok ((len + 32 / w - 1) / (32 / w)) := by
+  have habs := Lemmas.BitEnc.abs_run w hw ops Model.BitEnc.new [] (Lemmas.BitEnc.abs_new w hw)
+  have hrun := run_eq_model w hw ops Model.BitEnc.new [] (Lemmas.BitEnc.abs_new w hw) hok
+  have href := bitenc_refines w hw ops
+  have hfin := opsOk_final_len w ops [] (by simp) hok
+  refine ⟨_, _, Model.BitEnc.mask w, usable w, new_eq_model w hw, hrun, href.2.1, ?_, ?_⟩
+  · intro i
+    rw [get_eq_model w hw _ habs.2 (by rw [href.2.1]; exact hfin) i, href.2.2.1 i]
+  · rw [nrBlocks_eq_model, href.2.2.2]
+
+-- non-vacuity: width 3; the history of the `bitenc_refines` example (fills a block, overruns it, unmasked value)
+example : Gen.SrcBitEnc.new 3 = Rs.Res.ok ([], 3, 7, 0, 30) := by decide
+example : Gen.SrcBitEnc.new 9 = Rs.Res.panic := by decide
+example : Gen.SrcBitEnc.new 0 = Rs.Res.panic := by decide
+example : [Op.pushValues 9 1, .pushValues 2 13, .push 255, .set 0 8, .pushValues 12 6].foldlM (srcStep 3 7 30) ([], 0)
+    = Rs.Res.ok ([690262600, 920350141, 3510], 24) := by decide
+example : OpsOk 3 [] [Op.pushValues 9 1, .pushValues 2 13, .push 255, .set 0 8, .pushValues 12 6] := by
+  simp [OpsOk, specStep]
+example : Gen.SrcBitEnc.get [690262600, 920350141, 3510] 3 7 24 30 11 = Rs.Res.ok (some 7) := by decide
+example : Gen.SrcBitEnc.get [690262600, 920350141, 3510] 3 7 24 30 24 = Rs.Res.ok none := by decide
+-- `set` beyond the allocated blocks: the Rust code panics (index out of bounds), so does the translation
+example : Gen.SrcBitEnc.set [5] 3 7 1 30 10 1 = Rs.Res.panic := by decide
+
+end bitenc_ops_source
 
 end RbV.Thm.C18
